@@ -85,9 +85,9 @@ func e3C03Config(rng *mrand.Rand, quick bool, i int) e3Config {
 	}
 	if cfg.WantByz && rng.IntN(2) == 0 {
 		cfg.Attack = true
-		cfg.AttackKind = rng.IntN(4)
+		cfg.AttackKind = rng.IntN(5)
 	}
-	// six of every eight runs are given to the directed attacks, whatever was drawn
+	// seven of every eight runs are given to the directed attacks, whatever was drawn
 	switch i % 8 {
 	case 5:
 		cfg.WantByz, cfg.Attack, cfg.AttackKind = true, true, 1
@@ -99,6 +99,8 @@ func e3C03Config(rng *mrand.Rand, quick bool, i int) e3Config {
 		cfg.WantByz, cfg.Rotate, cfg.Attack, cfg.AttackKind = true, true, true, 2
 	case 3, 4:
 		cfg.WantByz, cfg.Attack, cfg.AttackKind = true, true, 3
+	case 0:
+		cfg.WantByz, cfg.Attack, cfg.AttackKind = true, true, 4
 	}
 	if f := os.Getenv("VERIF_E3_FORCE"); f != "" {
 		// debugging aid: VERIF_E3_FORCE=kind=<0|1|2> makes every run a rotating world with
